@@ -421,6 +421,9 @@ type ReplArgs struct {
 	Second   SigSpec
 	Bang     bool
 	CurIDs   []int
+	// Between runs after the host's quote has been read and before the renter answers it (an
+	// operation on another stream in the middle of the RPC)
+	Between func()
 }
 
 func (s *Sess) Replenish(a ReplArgs) Result {
@@ -461,6 +464,9 @@ func (s *Sess) Replenish(a ReplArgs) Result {
 			}
 		}
 		res.Vals = curs(amts)
+		if a.Between != nil {
+			a.Between()
+		}
 		var total types.Currency
 		tooBig := false
 		for _, d := range resp.Deposits {
